@@ -23,7 +23,10 @@ func zzNondetRoute(name string) system.Route {
 	zzAssume(zzAnd(bits >= 0, bits <= max))
 	p := netip.PrefixFrom(a, bits)
 	zzAssume(p == p.Masked()) // documented shape of a route dump
-	return system.Route{Prefix: p}
+	// the dump also carries the interface index and the kernel preference,
+	// which the expansion must ignore (the same prefix can sit on two
+	// loopback interfaces)
+	return system.Route{Prefix: p, Index: 1 + int(zzNondetUint8(name+".index")&1), Preference: ndp.Preference(zzNondetUint8(name+".pref") & 3)}
 }
 
 func zzHiLo(a netip.Addr) (uint64, uint64) {
